@@ -2,7 +2,7 @@ LEVEL = "proof"
 MANIFEST = {
     "engine": "symrun+frames",
     "category": "proof",
-    "text": "Cache coherence of conditioned random fields as a representation invariant, for ALL values (model parameters, conditioning positions and values, means, trends, target positions, seeds are symbolic reals): for every public mutator of the kriging setup -- a new seed, set_pos / new target positions / another mesh type, Krige.set_condition with new values, new positions, fewer points or a new measurement error, model re-assignment on CondSRF and on its Krige (with and without the documented refresh), in-place model parameter changes followed by the documented refresh set_condition(), mean / trend / normalizer re-assignment on CondSRF and on its Krige, set_drift_functions followed by the refresh, and a direct call of the public Krige object between two generations -- started from a never-called object and from an object with filled caches, with the positions passed again or reused, the REAL CondSRF.__call__ ends in exactly the view a freshly built CondSRF with the resulting settings has after its first call: returned field, every stored field of CondSRF and of its Krige, the inverted kriging matrix, isometrised condition positions, conditions, positions, and the generator state including the position in the random stream. Since the whole view is compared, all finite call histories follow by induction. Complemented by dataflow facts over the real ast (gsvc.frames assigns/reads): every public mutator whose write set meets the read set of Krige.__call__ deletes the stored fields (or only forwards to one that does, or writes only attributes that the documented refresh re-reads). The conditioning formula is proved on the real code: raw = raw_krige + sqrt(krige_var/var) * raw_field for nugget 0 and the nugget split raw_krige + sqrt(max(krige_var-n,0)/var) * raw_field + sqrt(min(krige_var,n)/n) * sqrt(n) * xi otherwise, where raw_krige / krige_var are what the Krige object alone returns, raw_field (+ noise) is the unconditional SRF field of the same seed, the variance of the random part is exactly krige_var, and krige_var = 0 implies field = kriging estimate for every seed; under the assumed inverse contract inv(A).A = I the field equals the conditioning values at the conditioning locations (nugget 0, or exact=True with nugget > 0) for simple, ordinary, universal, detrended and external-drift kriging. Added after the seeding rounds: a refresh keeps an explicit cond_err; data honouring through mean + trend + nonlinear normalizer; mesh-type switch in 2-D; delete_fields removes every selected stored field; native histories 'caller edits its position array in place' (F26 repaired) and 'raw kriging field stored under custom names' (F27 repaired).",
+    "text": "Cache coherence of conditioned random fields as a representation invariant, for ALL values (model parameters, conditioning positions and values, means, trends, target positions, seeds are symbolic reals): for every public mutator of the kriging setup -- a new seed, set_pos / new target positions / another mesh type, Krige.set_condition with new values, new positions, fewer points or a new measurement error, model re-assignment on CondSRF and on its Krige (with and without the documented refresh), in-place model parameter changes followed by the documented refresh set_condition(), mean / trend / normalizer re-assignment on CondSRF and on its Krige, set_drift_functions followed by the refresh, and a direct call of the public Krige object between two generations -- started from a never-called object and from an object with filled caches, with the positions passed again or reused, the REAL CondSRF.__call__ ends in exactly the view a freshly built CondSRF with the resulting settings has after its first call: returned field, every stored field of CondSRF and of its Krige, the inverted kriging matrix, isometrised condition positions, conditions, positions, and the generator state including the position in the random stream. Since the whole view is compared, all finite call histories follow by induction. Complemented by dataflow facts over the real ast (gsvc.frames assigns/reads): every public mutator whose write set meets the read set of Krige.__call__ deletes the stored fields (or only forwards to one that does, or writes only attributes that the documented refresh re-reads). The conditioning formula is proved on the real code: raw = raw_krige + sqrt(krige_var/var) * raw_field for nugget 0 and the nugget split raw_krige + sqrt(max(krige_var-n,0)/var) * raw_field + sqrt(min(krige_var,n)/n) * sqrt(n) * xi otherwise, where raw_krige / krige_var are what the Krige object alone returns, raw_field (+ noise) is the unconditional SRF field of the same seed, the variance of the random part is exactly krige_var, and krige_var = 0 implies field = kriging estimate for every seed; under the assumed inverse contract inv(A).A = I the field equals the conditioning values at the conditioning locations (nugget 0, or exact=True with nugget > 0) for simple, ordinary, universal, detrended and external-drift kriging. Added after the seeding rounds: a refresh keeps an explicit cond_err; data honouring through mean + trend + nonlinear normalizer; mesh-type switch in 2-D; delete_fields removes every selected stored field; native histories 'caller edits its position array in place' (F26 repaired) and 'raw kriging field stored under custom names' (F27 repaired). Also: another external drift passed with a repeated generation is used (F28 repaired) and the kriging object owns copies of its conditions, external drift and measurement errors (F29 repaired).",
     "level_note": "Enumerated (not symbolic) are only shapes and flags: kriging variant in {simple, ordinary} (quick) plus {universal(linear drift), detrended(callable trend), external drift} (thorough), model dimension 1 (quick) and 2 with symbolic anisotropy and rotation (thorough), 2 conditioning points (1 after 'fewer'), 2 target points (1-2 symbolic ones in the formula obligations), RandMeth with 2 modes, pre-state in {never called, called once with default storage} (thorough: also called without storing, called twice), next call in {positions passed again, positions reused}; the cache logic under proof does not depend on array sizes, the coherence obligations are therefore counted as discharged with this enumeration stated, while the conditioning-formula and data-honouring obligations (pointwise numpy code, 1-2 targets, n <= 2 conditioning points) are reported BOUNDED. Generic model: a user CovModel subclass with uninterpreted normalised correlation (hint cor(0) = 1 only in the data-honouring obligations) so the result holds for every model class; generic normalizer with uninterpreted transform pair. Stubs in symbolic runs (natively the real code runs, every obligation is also spot-checked natively): the (pseudo) inverse is an uninterpreted function of the matrix entries (T5: deterministic in its argument); compiled krigesum kernels -> their C15 postconditions; scipy cdist -> sqrt(sum (a-b)^2); random draws are ghost terms of (seed value, sub-stream index, element index) (T5, as in C11). Readings: 'positions unchanged' is the code's own test (exact equality since fix 10bf78d; the contract also passes positions inside the former np.allclose window and they now discharge); a model change is 'a change' when it exceeds the np.isclose window of CovModel.__eq__ (inside the window the generator keeps its model copy: open finding F15, 18 obligations kept failing); with nugget > 0 a repeated call with the SAME seed draws the next nugget noise by design, so those histories pass a new seed. NOT decided: the limit statement 'tends to mean + unconditional field far from the data' (krige_var -> sill, raw_krige -> 0 as distance -> infinity; needs decay of the model's correlation, a limit, residue); accuracy of scipy's pinv (T5); floats as reals (T1: natively sqrt(krige_var) amplifies the O(1e-16) rounding error of krige_var at data locations to O(1e-8)). The direct call of cs.krige(...) at new positions between two generations (former finding F23) is repaired in /repo (f6c8b0b) and its obligations discharge. Not an obligation: assigning cs.pos / cs.mesh_type directly (the primitives set_pos itself uses) does not invalidate stored fields.",
     "technique": "contract-based deductive verification: symbolic execution of the real Python methods against sidecar postconditions from the docstrings, VCs discharged by z3/cvc5; write/read-set facts by dataflow over the real ast",
 }
